@@ -149,6 +149,25 @@ func checkC11(c *Ctx, r *Report) {
 		}
 		cmp("reads", fl30, fl31, func(s string) string { return s })
 		cmp("calls", cl30, cl31, normEmitterCall)
+		// the siblings skip the same elements: conditions that guard a `continue`/early
+		// `return` inside their loops over IR collections, compared as atom sets
+		sk30, sk31 := w.loopSkipProfile(f30, p30), w.loopSkipProfile(f31, p31)
+		for k, pos := range sk30 {
+			sites = append(sites, pos)
+			if _, ok := sk31[k]; !ok {
+				if _, tabled := dt.Only30[key]["skip:"+k]; !tabled {
+					viol = fmt.Sprintf("%s: 3.0 %s skips loop elements under [%s] but the 3.1 sibling %s has no such skip: the two documents then list different members (properties, parameters, routes) for the same project", pos, pr[0], k, pr[1])
+				}
+			}
+		}
+		for k, pos := range sk31 {
+			sites = append(sites, pos)
+			if _, ok := sk30[k]; !ok {
+				if _, tabled := dt.Only31[key]["skip:"+k]; !tabled {
+					viol = fmt.Sprintf("%s: 3.1 %s skips loop elements under [%s] but the 3.0 sibling %s has no such skip: the two documents then list different members (properties, parameters, routes) for the same project", pos, pr[1], k, pr[0])
+				}
+			}
+		}
 		o := r.add("C11.c", "sibling", "pair:"+key, "3.0 "+pr[0]+" and 3.1 "+pr[1]+" read the same IR fields and call the same shared helpers (modulo tables/dialect.json)", []string{f30.Key, f31.Key}, sites, viol)
 		o.NonTrivial = true
 	}
@@ -640,4 +659,114 @@ func guardWord(g bool) string {
 		return "only to inline (non-$ref) schemas"
 	}
 	return "also to $ref schemas"
+}
+
+// loopSkipProfile: for every `continue` inside a range loop of fi, the condition of the
+// innermost enclosing if, rendered as a sorted atom list (IR fields, helper calls with the
+// emitter package normalised, literals, operators). Key -> position.
+func (w *World) loopSkipProfile(fi *FuncInfo, ownPkg string) map[string]string {
+	out := map[string]string{}
+	// a skip is a block that does nothing but `continue` (and log): a `continue` that ends a
+	// block with other effects is a dispatch (the element was handled another way), not a skip
+	pure := map[*ast.BranchStmt]bool{}
+	ast.Inspect(fi.Decl.Body, func(n ast.Node) bool {
+		b, ok := n.(*ast.BlockStmt)
+		if !ok || len(b.List) == 0 {
+			return true
+		}
+		br, ok := b.List[len(b.List)-1].(*ast.BranchStmt)
+		if !ok || br.Tok != token.CONTINUE {
+			return true
+		}
+		onlyLog := true
+		for _, st := range b.List[:len(b.List)-1] {
+			es, ok := st.(*ast.ExprStmt)
+			if !ok {
+				onlyLog = false
+				break
+			}
+			cl, ok := es.X.(*ast.CallExpr)
+			if !ok || !(strings.HasPrefix(calleeOfCall(fi.Pkg.TypesInfo, cl), "infrastructure/logger.") || strings.HasPrefix(calleeOfCall(fi.Pkg.TypesInfo, cl), "log.")) {
+				onlyLog = false
+				break
+			}
+		}
+		if onlyLog {
+			pure[br] = true
+		}
+		return true
+	})
+	var walk func(n ast.Node, inLoop bool, conds []ast.Expr)
+	walk = func(n ast.Node, inLoop bool, conds []ast.Expr) {
+		switch x := n.(type) {
+		case nil:
+			return
+		case *ast.FuncLit:
+			return
+		case *ast.RangeStmt:
+			walk(x.Body, true, nil)
+			return
+		case *ast.ForStmt:
+			walk(x.Body, true, nil)
+			return
+		case *ast.IfStmt:
+			if x.Init != nil {
+				walk(x.Init, inLoop, conds)
+			}
+			walk(x.Body, inLoop, append(append([]ast.Expr{}, conds...), x.Cond))
+			if x.Else != nil {
+				walk(x.Else, inLoop, append(append([]ast.Expr{}, conds...), &ast.UnaryExpr{Op: token.NOT, X: x.Cond}))
+			}
+			return
+		case *ast.BranchStmt:
+			if x.Tok == token.CONTINUE && inLoop && len(conds) > 0 && pure[x] {
+				var parts []string
+				for _, cnd := range conds {
+					a := w.exprAtoms(fi, cnd)
+					var ks []string
+					for f := range a.Fields {
+						ks = append(ks, f)
+					}
+					for cl := range a.Calls {
+						base := strings.TrimLeft(strings.TrimPrefix(cl, "inlined:"), "(*")
+						if strings.HasPrefix(base, "infrastructure/logger.") {
+							continue
+						}
+						if strings.HasPrefix(base, ownPkg+".") {
+							base = normEmitterCall("<emitter>." + strings.TrimPrefix(base, ownPkg+"."))
+						}
+						ks = append(ks, "call:"+base)
+					}
+					for l := range a.Lits {
+						ks = append(ks, "lit:"+l)
+					}
+					sort.Strings(ks)
+					parts = append(parts, strings.Join(ks, ","))
+				}
+				out[strings.Join(parts, " && ")] = w.pos(x.Pos())
+			}
+			return
+		case *ast.BlockStmt:
+			for _, st := range x.List {
+				walk(st, inLoop, conds)
+			}
+			return
+		case *ast.SwitchStmt:
+			walk(x.Body, inLoop, conds)
+			return
+		case *ast.TypeSwitchStmt:
+			walk(x.Body, inLoop, conds)
+			return
+		case *ast.CaseClause:
+			for _, st := range x.Body {
+				walk(st, inLoop, conds)
+			}
+			return
+		case *ast.LabeledStmt:
+			walk(x.Stmt, inLoop, conds)
+			return
+		}
+	}
+	walk(fi.Decl.Body, false, nil)
+	return out
 }
